@@ -163,7 +163,12 @@ class ARMA:
 
         """
         from scipy.signal import dimpulse
-        sys = self.ma_poly, self.ar_poly, 1
+        # scipy reads both polynomials in descending powers of z, so a
+        # shorter ma_poly would be taken as a delay of p-q periods
+        ma_poly = np.hstack(
+            (self.ma_poly, np.zeros(len(self.ar_poly) - len(self.ma_poly)))
+        )
+        sys = ma_poly, self.ar_poly, 1
         times, psi = dimpulse(sys, n=impulse_length)
         psi = psi[0].flatten()  # Simplify return value into flat array
 
@@ -251,7 +256,10 @@ class ARMA:
         from scipy.signal import dlsim
         random_state = check_random_state(random_state)
 
-        sys = self.ma_poly, self.ar_poly, 1
+        ma_poly = np.hstack(
+            (self.ma_poly, np.zeros(len(self.ar_poly) - len(self.ma_poly)))
+        )
+        sys = ma_poly, self.ar_poly, 1
         u = random_state.standard_normal((ts_length, 1)) * self.sigma
         vals = dlsim(sys, u)[1]
 
